@@ -599,6 +599,43 @@ pub struct Clock {
 thread_local! {
     static CLOCK_CAND: RefCell<BTreeSet<u64>> = const { RefCell::new(BTreeSet::new()) };
     static CLOCK_NOW: Cell<u64> = const { Cell::new(0) };
+    /// while a run is active on this thread the monotonic clock of the whole process reads the
+    /// simulated time (see `clock_gettime` below)
+    static VCLOCK_ON: Cell<bool> = const { Cell::new(false) };
+}
+
+/// The last clock seam: `std::time::Instant::now()` ends in libc's `clock_gettime`. Defining the
+/// symbol here makes every monotonic clock read of the process - also one that a change to the
+/// code under test introduces behind the guarded `Instant` imports - go through this function:
+/// on a thread that is executing a run it reads the simulated clock (a fixed origin plus the
+/// virtual milliseconds the controller has let pass), everywhere else the real clock.
+#[cfg_attr(not(vclock_off), no_mangle)]
+pub unsafe extern "C" fn clock_gettime(clk: libc::clockid_t, ts: *mut libc::timespec) -> libc::c_int {
+    // the C library's own implementation (vDSO fast path), looked up once; the raw system call
+    // until then
+    static REAL: std::sync::atomic::AtomicUsize = std::sync::atomic::AtomicUsize::new(0);
+    let mut f = REAL.load(std::sync::atomic::Ordering::Relaxed);
+    if f == 0 {
+        let p = libc::dlsym(libc::RTLD_NEXT, c"clock_gettime".as_ptr());
+        f = if p.is_null() { 1 } else { p as usize };
+        REAL.store(f, std::sync::atomic::Ordering::Relaxed);
+    }
+    let r = if f > 1 {
+        let real: unsafe extern "C" fn(libc::clockid_t, *mut libc::timespec) -> libc::c_int = std::mem::transmute(f);
+        real(clk, ts)
+    } else {
+        libc::syscall(libc::SYS_clock_gettime, clk, ts) as libc::c_int
+    };
+    if r == 0 && (clk == libc::CLOCK_MONOTONIC || clk == libc::CLOCK_MONOTONIC_RAW || clk == libc::CLOCK_BOOTTIME) {
+        let on = VCLOCK_ON.try_with(|v| v.get()).unwrap_or(false);
+        if on {
+            let ms = CLOCK_NOW.try_with(|n| n.get()).unwrap_or(0);
+            // origin: 10^6 s, far from zero so that `Instant - Duration` keeps working
+            (*ts).tv_sec = 1_000_000 + (ms / 1000) as libc::time_t;
+            (*ts).tv_nsec = ((ms % 1000) * 1_000_000) as libc::c_long;
+        }
+    }
+    r
 }
 
 /// Registers `now + ms` as an instant at which something may happen.
@@ -801,6 +838,8 @@ pub struct Sim {
 
 pub fn begin_run(knobs: &Knobs, n_actors_hint: usize, trace: bool, stack_size: usize) {
     install_hooks();
+    CLOCK_NOW.with(|n| n.set(0));
+    VCLOCK_ON.with(|v| v.set(true));
     QUIET.with(|q| q.set(true));
     tls(|t| {
         t.active = true;
@@ -836,6 +875,7 @@ pub fn begin_run(knobs: &Knobs, n_actors_hint: usize, trace: bool, stack_size: u
 }
 
 pub fn end_run() -> (u64, Vec<String>) {
+    VCLOCK_ON.with(|v| v.set(false));
     QUIET.with(|q| q.set(false));
     tls(|t| {
         t.active = false;
